@@ -410,4 +410,97 @@ theorem execFrom_done_counts {lt : Name → Name → Bool} {names : List Name} {
       | other => simp [step] at hst; subst hst; simp_all
       | unrecog => simp [step] at hst; subst hst; simp_all
 
+/-! ### signed node ids: the `Int` functions are the `Nat` functions at `idAsNat` -/
+
+/-- an id that is not below the number of nodes is found by the lookup loop for no node list (distinct names or
+    not): every id the loop compares with is an index into the sorted names -/
+theorem findRemote_none_of_length_le (lt : Name → Name → Bool) (names : List Name) {rid : Nat}
+    (h : names.length ≤ rid) : findRemote lt names rid = none := by
+  unfold findRemote
+  rw [List.find?_eq_none]
+  intro x hx
+  rw [nodeId_of_mem lt hx]
+  have hlt : (sortNames lt names).idxOf x < (sortNames lt names).length :=
+    List.idxOf_lt_length_of_mem ((mem_sortNames lt names x).2 hx)
+  rw [length_sortNames] at hlt
+  have hne : (sortNames lt names).idxOf x ≠ rid := by omega
+  simpa using hne
+
+theorem findRemoteI_ofNat (lt : Name → Name → Bool) (names : List Name) (n : Nat) :
+    findRemoteI lt names (Int.ofNat n) = findRemote lt names n := by
+  unfold findRemoteI findRemote
+  congr 1
+  funext x
+  cases nodeId lt names x with
+  | none => rfl
+  | some k =>
+    show (some (Int.ofNat k) == some (Int.ofNat n)) = (some k == some n)
+    rw [Bool.eq_iff_iff]
+    simp only [beq_iff_eq, Option.some.injEq]
+    exact ⟨Int.ofNat.inj, fun h => by rw [h]⟩
+
+/-- a negative id equals no node id -/
+theorem findRemoteI_negSucc (lt : Name → Name → Bool) (names : List Name) (k : Nat) :
+    findRemoteI lt names (Int.negSucc k) = none := by
+  unfold findRemoteI
+  rw [List.find?_eq_none]
+  intro x _
+  cases nodeId lt names x with
+  | none => simp
+  | some m =>
+    show ¬ ((some (Int.ofNat m) == some (Int.negSucc k)) = true)
+    simp only [beq_iff_eq, Option.some.injEq]
+    exact fun h => Int.noConfusion h
+
+theorem findRemoteI_eq (lt : Name → Name → Bool) (names : List Name) (rid : Int) :
+    findRemoteI lt names rid = findRemote lt names (idAsNat names rid) := by
+  cases rid with
+  | ofNat n => exact findRemoteI_ofNat lt names n
+  | negSucc k =>
+    rw [findRemoteI_negSucc]
+    exact (findRemote_none_of_length_le lt names (Nat.le_refl _)).symm
+
+theorem cmdEprGuardI_eq (lt : Name → Name → Bool) (names : List Name) (topo : Option (Topology Name)) (me : Name)
+    (rid : Int) : cmdEprGuardI lt names topo me rid = cmdEprGuard lt names topo me (idAsNat names rid) := by
+  unfold cmdEprGuardI cmdEprGuard
+  rw [findRemoteI_eq]
+
+theorem stepI_eq (lt : Name → Name → Bool) (names : List Name) (topo : Option (Topology Name)) (me : Name)
+    (rid : Int) (s : Stmt) (r : Run Name) :
+    stepI lt names topo me rid s r = step lt names topo me (idAsNat names rid) s r := by
+  cases s <;> simp only [stepI, step, findRemoteI_eq]
+
+theorem execFromI_eq (lt : Name → Name → Bool) (names : List Name) (topo : Option (Topology Name)) (me : Name)
+    (rid : Int) (l : List Stmt) (r : Run Name) :
+    execFromI lt names topo me rid l r = execFrom lt names topo me (idAsNat names rid) l r := by
+  induction l generalizing r with
+  | nil => rfl
+  | cons s l ih =>
+    simp only [execFromI, execFrom, stepI_eq]
+    cases step lt names topo me (idAsNat names rid) s r with
+    | error e => rfl
+    | ok r' => exact ih r'
+
+theorem execI_eq (lt : Name → Name → Bool) (names : List Name) (topo : Option (Topology Name)) (me : Name)
+    (rid : Int) (l : List Stmt) :
+    execI lt names topo me rid l = exec lt names topo me (idAsNat names rid) l :=
+  execFromI_eq lt names topo me rid l _
+
+theorem idAsNat_of_nonneg (names : List Name) {rid : Int} (h : 0 ≤ rid) : idAsNat names rid = rid.toNat := by
+  cases rid with
+  | ofNat n => rfl
+  | negSucc k => exact absurd h (by simp)
+
+theorem idAsNat_of_neg (names : List Name) {rid : Int} (h : rid < 0) : idAsNat names rid = names.length := by
+  cases rid with
+  | ofNat n => exact absurd h (by simp)
+  | negSucc k => rfl
+
+/-- a signed id is in range exactly when the number it behaves like is -/
+theorem idAsNat_lt_iff (names : List Name) (rid : Int) :
+    idAsNat names rid < names.length ↔ 0 ≤ rid ∧ rid < names.length := by
+  cases rid with
+  | ofNat n => simp [idAsNat]
+  | negSucc k => simp [idAsNat]
+
 end SqVerif.Adjacency
